@@ -171,8 +171,9 @@ pub fn configs(quick: bool) -> Vec<Config> {
     v.push(Config { nodes: 2, pids: vec![100, 200], trigger: Trigger::ForceElectionTwice(0, 1) });
     v.push(Config { nodes: 3, pids: vec![100, 200, 300], trigger: Trigger::PrimaryDies });
     v.push(Config { nodes: 3, pids: vec![100, 200, 300], trigger: Trigger::LateJoin });
+    v.push(Config { nodes: 3, pids: vec![100, 200, 300], trigger: Trigger::ForceElection(1) });
     if !quick {
-        for i in 0..3 {
+        for i in [0, 2] {
             v.push(Config { nodes: 3, pids: vec![100, 200, 300], trigger: Trigger::ForceElection(i) });
         }
         v.push(Config { nodes: 3, pids: vec![100, 200, 300], trigger: Trigger::SimultaneousStart });
@@ -188,7 +189,7 @@ pub fn run(run: &mut Run) {
     // every configuration is explored by one thread, depth first, with a state cap: the explored
     // part is the same on every run (a time cap or a shared work stack would make it vary)
     let cap_override = crate::util::env_u64("NUNMC_C07_CAP", 0) as usize;
-    let cap_for = |nodes: usize| if cap_override > 0 { cap_override } else if quick { if nodes == 2 { 700 } else { 100 } } else if nodes == 2 { 60000 } else { 6000 };
+    let cap_for = |nodes: usize| if cap_override > 0 { cap_override } else if quick { if nodes == 2 { 700 } else { 100 } } else if nodes == 2 { 12000 } else { 2000 };
     let max_states = cap_for(2);
     let results: std::sync::Mutex<Vec<(usize, Result<(NetStats, Vec<NetFinding>, u64, u64), String>)>> = std::sync::Mutex::new(vec![]);
     let idx = std::sync::atomic::AtomicUsize::new(0);
@@ -204,7 +205,7 @@ pub fn run(run: &mut Run) {
                     break;
                 }
                 let c = &cfgs[i];
-                let cfg = NetCfg { max_states: cap_for(c.nodes), max_path: 400, budget: Duration::from_secs(if quick { 300 } else { 3000 }), workers: 1, by_deviations: false };
+                let cfg = NetCfg { max_states: cap_for(c.nodes), max_path: 400, budget: Duration::from_secs(if quick { 300 } else { 3600 }), workers: 1, by_deviations: false };
                 let mk = || build(c);
                 let none = |_: &NetWorld, _: &[T]| -> Vec<(String, String)> { vec![] };
                 let good = std::sync::atomic::AtomicU64::new(0);
@@ -217,7 +218,7 @@ pub fn run(run: &mut Run) {
                 // two passes over the same configuration: iterative deviation bounding (the default
                 // schedule, then every schedule one departure away from it, then two, ...) reaches
                 // the quiet states that need few reorderings; depth first then goes deep near the end
-                let cfg_dev = NetCfg { max_states: cap_for(c.nodes), max_path: 400, budget: Duration::from_secs(if quick { 300 } else { 3000 }), workers: 1, by_deviations: true };
+                let cfg_dev = NetCfg { max_states: cap_for(c.nodes), max_path: 400, budget: Duration::from_secs(if quick { 300 } else { 3600 }), workers: 1, by_deviations: true };
                 let r = explore_net(&mk, &none, &onq, &cfg_dev).and_then(|(st1, mut f1)| {
                     explore_net(&mk, &none, &onq, &cfg).map(|(mut st, f)| {
                         f1.extend(f);
@@ -226,6 +227,7 @@ pub fn run(run: &mut Run) {
                         st.transitions += st1.transitions;
                         st.replays += st1.replays;
                         st.quiescent_states += st1.quiescent_states;
+                        st.paths_finished_fairly += st1.paths_finished_fairly;
                         st.max_path = st.max_path.max(st1.max_path);
                         if st.cap.is_none() {
                             // the depth-first pass covered everything
@@ -252,7 +254,7 @@ pub fn run(run: &mut Run) {
                 if st.cap.is_some() {
                     capped += 1;
                 }
-                per.push(json!({"config": c.name(), "states": st.states, "quiescent_states": st.quiescent_states, "quiet_states_ok": g, "quiet_states_violating": b, "max_path": st.max_path, "cap": st.cap, "deviations_completed": st.deviations_completed}));
+                per.push(json!({"config": c.name(), "states": st.states, "quiescent_states": st.quiescent_states, "quiet_states_ok": g, "quiet_states_violating": b, "max_path": st.max_path, "cap": st.cap, "deviations_completed": st.deviations_completed, "paths_finished_with_fair_schedule": st.paths_finished_fairly}));
                 let trig = format!("{:?}", c.trigger);
                 let trig = trig.split('(').next().unwrap_or("").to_string();
                 let shape_pre = format!("{} nodes, {}", c.nodes, trig);
@@ -280,5 +282,73 @@ pub fn run(run: &mut Run) {
     run.sample(json!(cfgs[0].name()));
     run.assume("timing: the 1 s start-up sleep and the election timeouts fire only when no message or join connection can make progress (messages are faster than the election timeout); the 100 ms grace sleep may end at any time");
     run.assume("a poll-loop iteration is explored only when the waiter's node changed since it last looked (an iteration on unchanged state observes nothing new)");
+    run.assume("a branch longer than 400 transitions is not explored further but finished with the fair schedule (oldest enabled transition first) and its quiet state judged; only a fair run that does not go quiet counts against termination (a schedule that holds one message back for hundreds of steps is outside the property's premise on message delays); fair cycles are reported separately as livelock");
     run.assume("each configuration is explored twice by one thread, by ascending number of deviations from the default schedule and depth-first, each up to a state cap, so the covered part is identical on every run; configurations that hit the cap are reported as capped");
+}
+
+/// `./check replay <file>` for a C07 counterexample: the configuration is rebuilt, the recorded
+/// transitions are taken one by one (a transition that is not enabled is a hard error), and the
+/// messages on the links, the roles and the verdict of the oracle are printed.
+pub fn replay(script: &str, path: &[String]) -> i32 {
+    crate::net::init_sleep_sites();
+    let c = match configs(false).into_iter().chain(configs(true)).find(|c| c.name() == script) {
+        Some(c) => c,
+        None => {
+            eprintln!("unknown C07 configuration {:?}", script);
+            return 2;
+        }
+    };
+    let mut w = match build(&c) {
+        Ok(w) => w,
+        Err(e) => {
+            eprintln!("machinery: cannot build {}: {}", script, e);
+            return 2;
+        }
+    };
+    w.pump();
+    w.traffic.clear();
+    for (i, want) in path.iter().enumerate() {
+        let en = w.enabled(true);
+        let t = match en.iter().find(|t| format!("{:?}", t) == *want) {
+            Some(t) => t.clone(),
+            None => {
+                eprintln!("replay divergence at step {}: {} is not enabled; enabled {:?}", i, want, en);
+                w.shutdown();
+                return 2;
+            }
+        };
+        if let Err(e) = w.apply(&t) {
+            eprintln!("machinery: {}", e);
+            return 2;
+        }
+        let roles: Vec<String> = (0..c.nodes).map(|n| format!("n{}={}", n + 1, w.role(n))).collect();
+        let msgs: Vec<String> = w.traffic.drain(..).map(|(f, t, m)| format!("n{}->n{} {}", f + 1, t + 1, m)).collect();
+        println!("{:4} {:28} {} {}", i, want, roles.join(" "), if msgs.is_empty() { String::new() } else { format!("| {}", msgs.join(" | ")) });
+    }
+    let mut en = w.enabled(true);
+    println!("enabled afterwards: {:?}", en);
+    if !en.is_empty() && path.len() >= 400 {
+        println!("the branch was cut here; finishing with the fair schedule (oldest enabled transition first)");
+        match w.run_fair(crate::net::FAIR_TAIL_STEPS) {
+            Ok(Ok(n)) => println!("quiet after {} more steps", n),
+            Ok(Err(n)) => {
+                println!("NOT quiet after {} more steps", n);
+                w.shutdown();
+                return 1;
+            }
+            Err(e) => {
+                eprintln!("machinery: {}", e);
+                return 2;
+            }
+        }
+        en = w.enabled(true);
+    }
+    if en.is_empty() {
+        let r = oracle(&w, &c);
+        println!("quiet; oracle: {:?}", r);
+        w.shutdown();
+        return if r.is_empty() { 0 } else { 1 };
+    }
+    w.shutdown();
+    0
 }
